@@ -9,7 +9,12 @@ func init() {
 	generators["HIST"] = func(c *Ctx) { genHist(c, "") }
 	for _, id := range []string{"C05", "C06", "C07", "C08", "C09"} {
 		id := id
-		generators[id] = func(c *Ctx) { genHist(c, id) }
+		generators[id] = func(c *Ctx) {
+			genHist(c, id)
+			if id == "C08" {
+				genFiles(c)
+			}
+		}
 		replayers["tmpl.hist."+id] = func(a []string) string { return runHistoryReal(a[0]) }
 	}
 }
@@ -31,6 +36,16 @@ var memberBodies = []string{
 	"{{template \"nope\" .}}", "<object>{{.X}}</object>", "text only", "", "{{.Y}}{{template \"h2\" .}}", "<p title='{{template \"h0\" .}}'>x</p>",
 	"<textarea>{{.X}}</textarea>", "<a href=\"/x?{{template \"h0\" .}}\">", "<script>{{template \"h0\" .}}</script>", "{{template \"m1\" .}}",
 	"{{with .M}}{{template \"h0\" .}}{{end}}", "<style>{{.Z}}</style>",
+}
+
+// texts that matter to CSPCompatible sets: javascript: URIs (any case, after non-ASCII text, at either end of a text
+// node), event handler attributes, and near misses
+var cspBodies = []string{
+	"<a href=\"javascript:{{.X}}\">x</a>", "<p>Caf\xe9</p><a href=\"javascript:{{.X}}\">x</a>", "<p>\xc8\xba</p><a href=\"javascript:{{.X}}\">x</a>",
+	"<p>Caf\xe9</p><a href=\"javascript:alert(1)\">x</a>{{.X}}", "<a href=\"JavaScript:{{.X}}\">x</a>", "<p>\xc4\xb0</p><a href=\"JAVASCRIPT:{{.X}}\">x</a>",
+	"{{.X}}javascript:", "javascript:{{.X}}", "<b onclick=\"f({{.X}})\">", "<b ONCLICK='{{.X}}'>", "<b on=\"{{.X}}\">", "<b onx={{.X}}>", "<p>java\xe9script:{{.X}}</p>",
+	"<a href=\"java&#115;cript:{{.X}}\">", "<a href=\"java\tscript:{{.X}}\">", "<script>javascript:{{.X}}</script>", "<!-- javascript: -->{{.X}}",
+	"<a title=\"javascript:{{.X}}\">", "\xe9\xe9\xe9\xe9javascript:", "\xc8\xba\xc8\xba\xc8\xbajavascript:x", "<a href=\"{{.X}}javascript:\">",
 }
 
 // genHIST: API histories over a set (and its clones): New, Parse*, assoc New, Lookup, Templates, Clone, Execute*.
@@ -145,7 +160,10 @@ func genHist(c *Ctx, which string) {
 			lens = []int{40, 260, 1100}
 		}
 		for _, n := range lens {
-			for _, leaf := range []string{"<b title=\"{{.X}}\">{{.Y}}</b>", "<a href=\"{{.X}}", "<b>{{.X}}</b>"} {
+			for li, leaf := range []string{"<b title=\"{{.X}}\">{{.Y}}</b>", "<a href=\"{{.X}}", "<b>{{.X}}</b>"} {
+				if n > 1000 && li > 0 {
+					break
+				}
 				var b strings.Builder
 				b.WriteString("{{define \"leaf\"}}" + leaf + "{{end}}")
 				for i := 0; i < n; i++ {
@@ -179,6 +197,11 @@ func genHistRandom(c *Ctx, which string) {
 		hb.add(Step{Op: "new", H: 0, Name: "root"})
 		// definitions
 		bodies := memberBodies
+		if c.rng.Intn(5) == 0 {
+			// CSP-compatible sets: javascript: URIs and event handlers in the text become analysis errors
+			hb.add(Step{Op: "csp", H: 0})
+			bodies = append(append([]string{}, memberBodies...), cspBodies...)
+		}
 		if which == "C08" || (which == "" && c.rng.Intn(4) == 0) {
 			bodies = append(append([]string{}, memberBodies...), nodeKindBodies...)
 		}
@@ -207,7 +230,7 @@ func genHistRandom(c *Ctx, which string) {
 		nsteps := 2 + c.rng.Intn(11)
 		for j := 0; j < nsteps && !hb.dead; j++ {
 			h := pick(c, handles)
-			switch r := c.rng.Intn(22); {
+			switch r := c.rng.Intn(23); {
 			case r < 6:
 				hb.add(Step{Op: "exect", H: h, Name: pick(c, names), Data: data})
 			case r < 9:
@@ -238,6 +261,8 @@ func genHistRandom(c *Ctx, which string) {
 				hb.add(Step{Op: "parse", H: h, Text: pick(c, memberBodies)})
 			case r < 21:
 				hb.add(Step{Op: "templates", H: h})
+			case r < 22:
+				hb.add(Step{Op: "csp", H: h})
 			default:
 				data = c.randData()
 			}
